@@ -2,6 +2,7 @@
 import gzip
 import io
 import itertools
+import json
 import os
 import struct
 import tempfile
@@ -134,6 +135,65 @@ def csv_round_trip(c, suffix, want_container=False):
         os.rmdir(d)
 
 
+def _surrogate_free(x):
+    try:
+        json.dumps(x).encode('utf-8')
+        str(x).encode('utf-8')
+        return True
+    except UnicodeEncodeError:
+        return False
+
+
+def csv_tie(ctx, c, reread, impl, lines, case):
+    """the csv dialect model (Hpv/Csv.lean; theorems csv_round_trip / file_round_trip) against the written file, both ways:
+    READ - the physical lines of the file go through the model's header filter, csv state machine and DictReader layer
+           (sim.read_file); with float() on the third column that must be the container from_csv returns;
+    WRITE - the model writes title, metadata line and the rows of items() (third column: repr of the value, which is what
+           the csv module writes for a float) with minimal and with full quoting (sim.write_file); the file must be one of the
+           two line for line. A file that is neither is a broken tie (the theorem speaks of the model's writer): the
+           re-read container is then compared with the written one as the search for a failing input."""
+    if not all(_surrogate_free(l) for l in lines):
+        ctx.count('csv.skipped-surrogates')
+        return
+    rep = run_driver([{'op': 'sim.read_file', 'lines': lines}])[0]
+    if 'error' in rep:
+        ctx.count('csv.read.model-rejects-input')
+        return
+    if 'err' in rep['csv'] or 'err' in rep['meta']:
+        model = 'raises'
+    else:
+        try:
+            want = _cls()()
+            for row in rep['csv']['rows']:
+                d = {k: v for k, v in row}
+                want.set_similarity(d['term_a'], d['term_b'], float(d['ic_mica']))
+            model = {'items': sorted((a, b, float(v).hex()) for a, b, v in want.items()), 'meta': {k: v for k, v in rep['meta']['ok']}}
+        except Exception as e:  # noqa  (a row without the three columns, a value float() rejects)
+            model = 'raises'
+    got = 'raises' if isinstance(impl, str) else impl
+    ctx.count('csv.read.' + ('agree' if got == model else 'differ'))
+    if got != model:
+        ctx.violation('csv-read', {'case': case, 'file_lines': lines[:12], 'impl': impl if isinstance(impl, str) else {k: (v[:5] if k == 'items' else v) for k, v in impl.items()},
+                                   'model': model if isinstance(model, str) else {k: (v[:5] if k == 'items' else v) for k, v in model.items()},
+                                   'theorem': 'Hpv.Props.C15.file_round_trip'})
+    # WRITE
+    if len(lines) < 2 or not lines[0].startswith('#') or not lines[1].startswith('#'):
+        ctx.count('csv.write.no-comment-lines')
+        return
+    rows = [['term_a', 'term_b', 'ic_mica']] + [[a, b, repr(float(v)) if type(v) is float else str(v)] for a, b, v in c.items()]
+    base = {'op': 'sim.write_file', 'title': lines[0][1:].rstrip('\r\n'), 'meta_line': lines[1][1:].rstrip('\r\n'), 'rows': rows}
+    outs = run_driver([dict(base, quote_all=False), dict(base, quote_all=True)])
+    norm = lambda ls: [l if i > 1 else l.rstrip('\r\n') for i, l in enumerate(ls)]
+    which = [name for name, o in zip(('minimal', 'all'), outs) if 'lines' in o and norm(o['lines']) == norm(lines)]
+    ctx.count('csv.write.' + ('agree-' + which[0] if which else 'differ'))
+    if not which:
+        # the tie to the model's writer is broken; failing input = this container if it does not survive the trip
+        same = (not isinstance(impl, str)) and impl['items'] == sorted((a, b, float(v).hex()) for a, b, v in c.items())
+        ctx.violation('csv-writer-differs', {'case': case, 'file_lines': lines[:12], 'model_lines': outs[0].get('lines', outs[0])[:12],
+                                             'round_trip_of_this_input_intact': same,
+                                             'theorem': 'Hpv.Props.C15.file_round_trip (speaks of Hpv.Csv.writeRows)'}, no_input=same)
+
+
 def frame_tie(ctx, c, suffix, case):
     """the framing model (Hpv.Sim.unframe / parseMeta) against from_csv on the file to_csv wrote: the physical lines of the file,
     read the way the library reads them (newlines untranslated), go to the model; what the model hands to the csv reader is
@@ -165,6 +225,7 @@ def frame_tie(ctx, c, suffix, case):
             ctx.violation('frame', {'case': case, 'file_lines': lines[:12], 'impl': impl if isinstance(impl, str) else {k: (v[:5] if k == 'items' else v) for k, v in impl.items()},
                                     'model': model if 'error' in model else {k: (v[:5] if k == 'items' else v) for k, v in model.items()},
                                     'theorem': 'Hpv.Props.C15.file_frame_round_trip'})
+        csv_tie(ctx, c, r if not isinstance(impl, str) else None, impl, lines, case)
     finally:
         for f in os.listdir(d):
             os.remove(os.path.join(d, f))
